@@ -102,6 +102,18 @@ def cases(ctx):
         sel = full
     for (t, a, nm, im) in sel:
         add(t, [(a, nm, [(im, 1 + (nm % 7))])], klass="1x1")
+    # empty lists: professionItems and professionInfos are mandatory members of their SEQUENCE - configured empty they are
+    # present and empty, not left out (professionOIDs would otherwise be read as professionItems)
+    for im in (0, 2, 4, 8, 14):
+        c = mk(len(out) + 1, None, [(None, 0, [(im, 1)])], klass="empty-items")
+        cfgd = json.loads(c["files"][0]["text"]) if "text" in c["files"][0] else None
+        cfgd["extensions"][0]["admission"]["content"]["admissions"][0]["professionInfos"][0]["professionItems"] = []
+        c["files"][0]["text"] = json.dumps(cfgd)
+        c["tag"]["exp"]["admissions"][0]["infos"][0]["items"] = []
+        out.append(c)
+    for nm in (0, 1, 7):
+        c = mk(len(out) + 1, "dns", [("mail", nm, [])], klass="empty-infos")
+        out.append(c)
     # sizes: every text member alone, and all together, stretched across the DER length-form boundaries (127/128, 255/256, 65535/65536)
     sizes = [100, 120, 127, 128, 200, 250, 253, 256, 300, 700] + ([] if ctx.quick else [4000, 65500, 65536, 70000])
     for n in sizes:
